@@ -9,7 +9,10 @@ S4  (unit)  the real static functions move_file_block / move_fixed_vars / move_r
             real ncmpi_enddef with a small MOVE_UNIT), oracle = values written before are read back unchanged
             after enddef and after reopen, file bytes equal after abort, aborted creation removes the file;
             every (old layout, new layout, file before, file after) is also replayed through the model's
-            `enddefMove` and the hypotheses `LayoutOK` of the theorem are evaluated on the real layouts.
+            `enddefMove` and the hypotheses `LayoutOK` of the theorem are evaluated on the real layouts;
+            redefinitions also add fixed/record variables with fill mode on/off (dataset level and per variable) to
+            files with 0..6 existing records: the real per-rank fill ranges (PMPI record of the hindexed view) must
+            lie inside the new fill-mode variables (hypotheses of enddef_fill_touches_only_new).
 """
 import os, sys, json, re, struct, subprocess
 sys.path.insert(0, os.path.dirname(os.path.abspath(__file__)))
@@ -71,6 +74,16 @@ class Spec:
         self.vars = []          # (type, [dimids])
         self.written = {}       # varid -> {global idx: value}
         self.natts = 0
+        self.dsfill = False     # dataset fill mode (ncmpi_set_fill)
+        self.nofill = []        # per variable: no_fill flag as the library keeps it
+
+    def addvar(self, t, dids):
+        self.vars.append((t, dids))
+        self.nofill.append(not self.dsfill)
+
+    def setfill(self, m):
+        self.dsfill = bool(m)
+        self.nofill = [not self.dsfill] * len(self.nofill)
 
     def has_unlim(self):
         return 0 in self.dims
@@ -154,7 +167,7 @@ def gen_schema(rng, sc, sp, nd_new, nv_new, allow_unlim=True):
                 dids.append(rng.choice(fixed_dims))
             if len(dids) < nd:
                 nd = len(dids)
-        sp.vars.append((t, dids))
+        sp.addvar(t, dids)
         newv.append(len(sp.vars) - 1)
         sc.op('var %d %d %s' % (t, len(dids), ' '.join(map(str, dids))), 'ok')
     return newv
@@ -234,6 +247,9 @@ def gen_scenario(rng, nprocs, idx, tier):
     sc.op('create %d' % fmt, 'ok')
     if rng.chance(1, 5):
         sc.op('att -1 %d' % rng.range(1, 40), 'ok')
+    if rng.chance(1, 4):
+        sc.op('setfill 1', 'setfill'); sp.setfill(1)
+        sc.kinds.add('create-dataset-fill')
     shape_kind = rng.choice(['mixed', 'mixed', 'mixed', 'one-rec', 'no-rec', 'only-rec'])
     sc.kinds.add('schema-' + shape_kind)
     if shape_kind == 'no-rec':
@@ -244,14 +260,14 @@ def gen_scenario(rng, nprocs, idx, tier):
         t = rng.choice(TYPES_CDF5 if fmt == 5 else TYPES_CLASSIC)
         fixed_dims = [i for i, l in enumerate(sp.dims) if l != 0]
         dids = [0] + ([rng.choice(fixed_dims)] if fixed_dims and rng.chance(1, 2) else [])
-        sp.vars.append((t, dids)); sc.op('var %d %d %s' % (t, len(dids), ' '.join(map(str, dids))), 'ok')
+        sp.addvar(t, dids); sc.op('var %d %d %s' % (t, len(dids), ' '.join(map(str, dids))), 'ok')
         if rng.chance(1, 2):
             # fixed variables besides the single record variable
             for _ in range(rng.range(1, 2)):
                 if fixed_dims:
                     t2 = rng.choice(TYPES_CLASSIC)
                     d2 = [rng.choice(fixed_dims)]
-                    sp.vars.append((t2, d2)); sc.op('var %d 1 %d' % (t2, d2[0]), 'ok')
+                    sp.addvar(t2, d2); sc.op('var %d 1 %d' % (t2, d2[0]), 'ok')
     elif shape_kind == 'only-rec':
         sp.dims.append(0); sc.op('dim 0', 'ok')
         gen_schema(rng, sc, sp, rng.range(1, 2), 0, allow_unlim=False)
@@ -259,7 +275,7 @@ def gen_scenario(rng, nprocs, idx, tier):
         for _ in range(rng.range(1, 3)):
             t = rng.choice(TYPES_CDF5 if fmt == 5 else TYPES_CLASSIC)
             dids = [0] + ([rng.choice(fixed_dims)] if rng.chance(2, 3) else [])
-            sp.vars.append((t, dids)); sc.op('var %d %d %s' % (t, len(dids), ' '.join(map(str, dids))), 'ok')
+            sp.addvar(t, dids); sc.op('var %d %d %s' % (t, len(dids), ' '.join(map(str, dids))), 'ok')
     else:
         gen_schema(rng, sc, sp, rng.range(1, 3), rng.range(1, 5))
     if kind == 'abort-create':
@@ -291,10 +307,16 @@ def gen_scenario(rng, nprocs, idx, tier):
             sc.op('att -1 %d' % n, 'ok'); deltas.append('att-small' if n <= 20 else 'att-large')
         if rng.chance(1, 4) and sp.vars:
             sc.op('att %d %d' % (rng.below(len(sp.vars)), rng.range(1, 600)), 'ok'); deltas.append('varatt')
-        if rng.chance(2, 3):
+        fillmode = rng.choice(['none', 'none', 'dataset-before', 'dataset-before', 'dataset-after', 'per-var', 'per-var',
+                               'per-var-value', 'dataset-then-var-nofill', 'dataset-off'])
+        if fillmode in ('dataset-before', 'dataset-then-var-nofill'):
+            sc.op('setfill 1', 'setfill'); sp.setfill(1)
+        if fillmode == 'dataset-off':
+            sc.op('setfill 0', 'setfill'); sp.setfill(0)
+        if rng.chance(3, 4):
             types = TYPES_CDF5 if fmt == 5 else TYPES_CLASSIC
-            for _ in range(rng.range(1, 2)):
-                which = rng.choice(['fixed', 'rec', 'any'])
+            for _ in range(rng.range(1, 3)):
+                which = rng.choice(['fixed', 'rec', 'rec', 'any'])
                 if which == 'rec' and not sp.has_unlim():
                     sp.dims.append(0); sc.op('dim 0', 'ok')
                 fixed_dims = [i for i, l in enumerate(sp.dims) if l != 0]
@@ -308,14 +330,32 @@ def gen_scenario(rng, nprocs, idx, tier):
                 else:
                     dids = [rng.choice(fixed_dims) for _ in range(rng.range(0, 2))]
                     deltas.append('new-fixed-var')
-                sp.vars.append((t, dids))
+                sp.addvar(t, dids)
                 sc.op('var %d %d %s' % (t, len(dids), ' '.join(map(str, dids))), 'ok')
+        # fill settings of the NEW variables (per variable / dataset level after the definitions)
+        newv = list(range(nold, len(sp.vars)))
+        if fillmode == 'dataset-after':
+            sc.op('setfill 1', 'setfill'); sp.setfill(1)
+        for v in newv:
+            if fillmode == 'per-var' and rng.chance(2, 3):
+                sc.op('varfill %d 0 0 0' % v, 'ok'); sp.nofill[v] = False
+            elif fillmode == 'per-var-value':
+                ty = sp.vars[v][0]
+                val = rng.range(33, 120) if ty == NC_CHAR else rng.range(1, 100)
+                sc.op('varfill %d 0 1 %d' % (v, val), 'ok'); sp.nofill[v] = False
+            elif fillmode == 'dataset-then-var-nofill' and rng.chance(1, 2):
+                sc.op('varfill %d 1 0 0' % v, 'ok'); sp.nofill[v] = True
+        if newv:
+            sc.kinds.add('fillmode-' + fillmode)
+        for v in newv:
+            sc.kinds.add('new-%s-var-%s' % ('rec' if sp.is_rec(v) else 'fixed', 'nofill' if sp.nofill[v] else 'FILL'))
+        sc.fillinfo = getattr(sc, 'fillinfo', [])
         for dl in deltas:
             sc.kinds.add('delta-' + dl)
         if not deltas:
             sc.kinds.add('delta-none')
         if aborting:
-            sp.vars = sp.vars[:nold]
+            sp.vars = sp.vars[:nold]; sp.nofill = sp.nofill[:nold]
             sc.op('abort', 'ok')
             sc.op('snap', 'snap', 'after-abort')
             sc.op('exists', 'exists', 1)
@@ -325,7 +365,9 @@ def gen_scenario(rng, nprocs, idx, tier):
             gen_reads(sc, sp, 'after-abort-reopen')
             sc.op('close', 'ok')
             return sc, sp
+        sc.op('planreset')
         gen_enddef(rng, sc)
+        sc.op('plan', 'plan', (nold, list(sp.nofill)))
         sc.op('layout', 'layout', ('new', nold))
         sc.op('snap', 'snap', 'after')
         gen_reads(sc, sp, 'after-enddef')
@@ -532,7 +574,8 @@ def run_check(tier, seed):
             log('[S3] lake build FAILED:', sorted(failed_thms)[:10], out[-600:])
         discharged, bad = axiom_audit('PnVerif.Props.C06', obl, 'PnVerif.Props.C06') if ok else ([], [])
         leanfiles = [os.path.join(LEAN, f) for f in ('PnVerif/Model/Redef.lean', 'PnVerif/Lemmas/Redef.lean',
-                                                     'PnVerif/Props/C06.lean', 'Driver/C06.lean')]
+                                                     'PnVerif/Props/C06.lean', 'Driver/C06.lean',
+                                                     'PnVerif/Model/Fill.lean', 'PnVerif/Props/C16.lean')]
         forb = grep_forbidden(leanfiles)
         V.cov['obligations'] = len(obl)
         V.cov['discharged'] = len(discharged)
@@ -568,7 +611,7 @@ def run_check(tier, seed):
                '-DENDDEF_SRC="%s"' % esrc]
         try:
             uexe = cc(tree, [os.path.join(VERIF, 'harness/c06_unit.c')], os.path.join(wd, 'c06_unit'), extra=inc)
-            aexe = cc(tree, [os.path.join(VERIF, 'harness/c06_api.c')], os.path.join(wd, 'c06_api'), extra=inc)
+            aexe = cc(tree, [os.path.join(VERIF, 'harness/c06_api.c')], os.path.join(wd, 'c06_api'), extra=inc + ['-DWITH_FILL_PLAN'])
         except BuildFailed as ex:
             V.broken_tie('correspondence: harness does not compile against the tree (static function signatures changed?)', str(ex)[-1500:])
             return V.finish()
@@ -637,6 +680,8 @@ def run_check(tier, seed):
         ed_lines, ed_meta = [], []
         api_scen = 0
         layout_bad = []
+        fill_bad = []
+        fill_segs = 0
         for np_ in ranks_api:
             scen = [gen_scenario(rng, np_, api_scen + i, tier) for i in range(per_rank)]
             api_scen += len(scen)
@@ -656,7 +701,22 @@ def run_check(tier, seed):
                     prop_fail.append(('api-crash-or-hang', 'harness crashed or hung on a valid redefinition scenario (%d ranks)' % np_,
                                       dict(nprocs=np_, script=sc.ops)))
                     continue
-                fails, eds, moved, lbad = evaluate(sc, sp, res, np_)
+                fails, eds, moved, lbad, fbad, stats = evaluate(sc, sp, res, np_)
+                fill_bad += fbad
+                for st in stats:
+                    bump('api:existing-records=%d' % min(st['existing_records'], 6))
+                    if st['new_rec_fill']:
+                        bump('api:redef-adds-FILL-record-var')
+                        if st['existing_records'] >= 1 and st['old_rec_vars']:
+                            bump('api:redef-adds-FILL-record-var-to-existing-records')
+                            moved = True
+                        if st['existing_records'] >= 2 and st['old_rec_vars']:
+                            bump('api:redef-adds-FILL-record-var-with>=2-existing-records')
+                    if st['new_fixed_fill']:
+                        bump('api:redef-adds-FILL-fixed-var')
+                    if st['new_nofill']:
+                        bump('api:redef-adds-nofill-var')
+                    fill_segs += st['fill_segments']
                 for f in fails:
                     prop_fail.append(f)
                 for e in eds:
@@ -709,6 +769,7 @@ def run_check(tier, seed):
         V.cov['api_scenarios'] = api_scen
         V.cov['mpi_read_mode_observed_on_short_files'] = dict(MATCH_MODE)
         V.cov['enddef_replays'] = len(ed_lines)
+        V.cov['real_fill_segments_checked'] = fill_segs
 
         # ---- S5 decide
         new_fail = 0
@@ -726,6 +787,8 @@ def run_check(tier, seed):
                 V.broken_tie('correspondence unit: real move_file_block/move_fixed_vars/move_record_vars and the model differ', unit_diffs[:8])
             if ed_diffs:
                 V.broken_tie('correspondence enddef: file after the real ncmpi_enddef differs from the model enddefMove on an existing variable', ed_diffs[:5])
+            if fill_bad:
+                V.broken_tie('fill ranges of the real ncmpi_enddef leave the new fill-mode variables (hypothesis of enddef_fill_touches_only_new / C16 plan_targets_new_only)', fill_bad[:5])
             if layout_bad:
                 V.broken_tie('layout hypotheses LayoutOK of enddefMove_preserves do not hold for a layout produced by the real NC_begins', layout_bad[:8])
             if tie_problems:
@@ -773,11 +836,13 @@ def run_scenarios(aexe, wd, np_, scen, batch):
 def evaluate(sc, sp, resall, np_):
     """property oracle on one scenario (resall = answers of every rank).  -> (failures, ED requests, data_moved?, layout problems)"""
     res = resall[0]
-    fails, eds, lbad = [], [], []
+    fails, eds, lbad, fillbad = [], [], [], []
     moved = False
     rep = dict(nprocs=np_, script=sc.ops)
     lay_old = snap_before = None
     last_new = None
+    plan_ans = None
+    stats = []
     for (li, kind, payload) in sc.expect:
         ans = res.get(li + 1)
         opname = sc.ops[li].split()[0]
@@ -790,6 +855,12 @@ def evaluate(sc, sp, resall, np_):
             if code != '0':
                 fails.append(('api-error:%s' % opname, 'valid call `%s` returned %s' % (sc.ops[li], code), rep))
                 break
+        elif kind == 'setfill':
+            if t[1] != '0':
+                fails.append(('api-error:setfill', 'valid call `%s` returned %s' % (sc.ops[li], t[1]), rep))
+                break
+        elif kind == 'plan':
+            plan_ans = (payload, [r_.get(li + 1) for r_ in resall])
         elif kind == 'exists':
             if int(t[1]) != payload:
                 if payload == 0:
@@ -807,6 +878,48 @@ def evaluate(sc, sp, resall, np_):
                     moved = True
                 for b in layout_ok(mv, old, new, nnv):
                     lbad.append(dict(problem=b, old=lay_old, new=ans, script=sc.ops))
+                # the fill part of enddef: real per-rank fill ranges vs hypotheses of enddef_fill_touches_only_new
+                if plan_ans is not None:
+                    (nold_p, nofill), answers = plan_ans
+                    plan_ans = None
+                    nums = list(map(int, ans.split()[1:]))
+                    noff = nums[5:]
+                    slots, slots_any = [], []
+                    for v in range(nold, nnv):
+                        nb = sp.inner(v) * XSZ[sp.vars[v][0]]
+                        bases = [noff[v] + new[2] * r for r in range(numrecs)] if sp.is_rec(v) else [noff[v]]
+                        for bs in bases:
+                            slots_any.append((bs, bs + nb))
+                            if not nofill[v]:
+                                slots.append((bs, bs + nb))
+                    oldreg = [(nb_, nb_ + ln) for ob, nb_, ln, isrec in mv if not isrec] + \
+                             [(new[1] + r * new[2], new[1] + r * new[2] + old[2]) for r in range(numrecs)]
+                    for (a, b) in slots_any:
+                        for (c, d) in oldreg:
+                            if a < d and c < b and a < b and c < d:
+                                lbad.append(dict(problem='new variable slot [%d,%d) overlaps the new place [%d,%d) of old data' % (a, b, c, d),
+                                                 old=lay_old, new=ans, script=sc.ops))
+                    nseg = 0
+                    for r_, pa in enumerate(answers):
+                        pt = (pa or '').split()
+                        if len(pt) < 3 or pt[0] != 'plan' or pt[1] == 'unsupported':
+                            continue
+                        n = max(int(pt[2]), 0) if int(pt[1]) > 0 else 0
+                        for k in range(n):
+                            off, ln = int(pt[3 + 2 * k]), int(pt[4 + 2 * k])
+                            if ln == 0:
+                                continue
+                            nseg += 1
+                            if not any(a <= off and off + ln <= b for a, b in slots):
+                                hit = next(((c, d) for c, d in oldreg if off < d and c < off + ln), None)
+                                fillbad.append(dict(problem='rank %d fills [%d,%d): not inside a new fill-mode variable%s'
+                                                    % (r_, off, off + ln, (' and overlapping old data at [%d,%d)' % hit) if hit else ''),
+                                                    old=lay_old, new=ans, script=sc.ops, nprocs=np_))
+                    newrec_fill = [v for v in range(nold, nnv) if sp.is_rec(v) and not nofill[v]]
+                    newfix_fill = [v for v in range(nold, nnv) if not sp.is_rec(v) and not nofill[v]]
+                    stats.append(dict(existing_records=numrecs, new_rec_fill=len(newrec_fill), new_fixed_fill=len(newfix_fill),
+                                      new_nofill=len([v for v in range(nold, nnv) if nofill[v]]), fill_segments=nseg,
+                                      old_rec_vars=len([1 for m_ in mv if m_[3]])))
         elif kind == 'snap':
             if payload == 'before':
                 snap_before = t[1]
@@ -859,7 +972,7 @@ def evaluate(sc, sp, resall, np_):
                         bad_here = True; break
                 if bad_here:
                     break
-    return fails, eds, moved, lbad
+    return fails, eds, moved, lbad, fillbad, stats
 
 
 if __name__ == '__main__':
